@@ -63,10 +63,11 @@ type c12Snap struct {
 	attrsPtr []uintptr
 	relsPtr  []uintptr
 	hasNew   []bool
+	whole    string // every field of the Schema value, unexported ones included
 }
 
 func snapSchema(s *jsonapi.Schema) c12Snap {
-	sn := c12Snap{types: copyTypes(s.Types)}
+	sn := c12Snap{types: copyTypes(s.Types), whole: fmt.Sprintf("%+v", *s)}
 	if len(s.Types) > 0 {
 		sn.typesPtr = reflect.ValueOf(s.Types).Pointer()
 	}
@@ -109,7 +110,19 @@ func (a c12Snap) diff(s *jsonapi.Schema) string {
 			return "relationships of type " + ta.Name + " changed"
 		}
 	}
+	if a.whole != b.whole {
+		return "a field of the Schema value changed (unexported state): " + firstDiff(a.whole, b.whole)
+	}
 	return ""
+}
+
+func firstDiff(a, b string) string {
+	i := 0
+	for i < len(a) && i < len(b) && a[i] == b[i] {
+		i++
+	}
+	lo := max(0, i-30)
+	return fmt.Sprintf("%q -> %q", a[lo:min(len(a), i+40)], b[lo:min(len(b), i+40)])
 }
 
 // ---------- the listed operations with their own inputs ----------
@@ -258,7 +271,7 @@ func c12Run(s *jsonapi.Schema, sc schemaSpec, o c12Op) (out string) {
 
 // c12Concurrent runs the per-goroutine operation lists at once, rounds times,
 // and reports results that differ from the ones each operation gave alone.
-func c12Concurrent(s *jsonapi.Schema, sc schemaSpec, threads [][]c12Op, rounds int) (problems []string) {
+func c12Concurrent(s1 *jsonapi.Schema, s *jsonapi.Schema, sc schemaSpec, threads [][]c12Op, rounds int) (problems []string) {
 	// which of several errors is reported depends on Go's map iteration
 	// order, not on sharing: failures are compared as failures
 	norm := func(x string) string {
@@ -270,7 +283,7 @@ func c12Concurrent(s *jsonapi.Schema, sc schemaSpec, threads [][]c12Op, rounds i
 	alone := make([][]string, len(threads))
 	for i, ops := range threads {
 		for _, o := range ops {
-			alone[i] = append(alone[i], norm(c12Run(s, sc, o)))
+			alone[i] = append(alone[i], norm(c12Run(s1, sc, o)))
 		}
 	}
 	snap := snapSchema(s)
@@ -325,8 +338,9 @@ func cmdRacer(args []string) int {
 	n, _ := strconv.Atoi(args[2])
 	rounds, _ := strconv.Atoi(args[3])
 	sc, threads := c12Plan(seed, g, n)
-	s := c12Build(sc)
-	probs := c12Concurrent(s, sc, threads, rounds)
+	// the results "alone" come from one instance of the schema, the goroutines
+	// share a second, untouched one (first calls happen under contention)
+	probs := c12Concurrent(c12Build(sc), c12Build(sc), sc, threads, rounds)
 	for _, p := range probs {
 		fmt.Println(p)
 	}
